@@ -140,13 +140,15 @@ def stateful_eval(
         variables.update(get_expression_variables(code, env, aliases))
 
     # Extract the nodes of the graph that correspond to stateful transforms
-    stateful_nodes: dict[str, ast.Call] = {}
+    # (every such node is kept: the same call may occur more than once in an
+    # expression, and each occurrence must be given its recorded state)
+    stateful_nodes: list[tuple[str, ast.Call]] = []
     for node in ast.walk(code):
         if _is_stateful_transform(node, env):
-            stateful_nodes[format_expr(node)] = cast(ast.Call, node)
+            stateful_nodes.append((format_expr(node), cast(ast.Call, node)))
 
     # Mutate stateful nodes to pass in state from a shared dictionary.
-    for name, node in stateful_nodes.items():
+    for name, node in stateful_nodes:
         name = name.replace('"', r'\\\\"')
         if name not in state:
             state[name] = {}
